@@ -3,7 +3,7 @@
    they did; check_case evaluates the model's issue / holder_parse / verify / reveal on the same input. *)
 From Coq Require Import List String ZArith NArith Bool.
 Import ListNotations.
-From VF Require Export C18.Model.
+From VF Require Export C18.Model C18.Walk.
 Open Scope string_scope.
 Open Scope list_scope.
 
@@ -100,7 +100,10 @@ Inductive case :=
 | CIssueVC (o : iopts) (subject outer vcm : list (string * val)) (payload : val) (ds : list disc)
 (* Credential.CreateDisplayCredentialMap: hash, the credential subject of the SD-JWT, the given disclosures, the
    displayed subject *)
-| CDisplay (a : N) (cs : val) (given : list disc) (out : val).
+| CDisplay (a : N) (cs : val) (given : list disc) (out : val)
+(* verifier.Parse again, against the INTERLEAVED model (Walk.v): accepted?, output, and the class of the error the
+   code reported (0 = none; wclass_code); the layered model must give the same verdict *)
+| CVerifyW (vo : vopts) (p : presentation) (acc : bool) (out : val) (ecls : N).
 
 Definition check_case (c : case) : bool :=
   match c with
@@ -138,6 +141,11 @@ Definition check_case (c : case) : bool :=
       match display_subject a cs given with
       | Ok v => equiv v out
       | _ => false
+      end
+  | CVerifyW vo p acc out ecls =>
+      match verify_w vo p with
+      | WOk v => acc && equiv v out && N.eqb ecls 0 && match verify vo p with Ok v' => equiv v' out | _ => false end
+      | WErr e => negb acc && N.eqb (wclass_code e) ecls && negb (is_ok (verify vo p))
       end
   end.
 
